@@ -227,8 +227,8 @@ func (ex *Exec) call(fn *ssa.Function, args []Value, nparams int, deferBy *Frame
 	if in := harnessIntrinsic(fn); in != nil {
 		return in(ex, args[:nparams], caller)
 	}
-	if fn.Blocks == nil && fn.Pkg != nil {
-		fn.Pkg.Build()
+	if fn.Pkg != nil {
+		fn.Pkg.Build() // sync.Once inside: also waits for a build in progress on another worker
 	}
 	if fn.Blocks == nil {
 		// try a generic instantiation origin, else fail
